@@ -929,6 +929,25 @@ Definition call_builtin (env : nat) (b : bfn) (args : list val) (kwargs : kwargs
       | Some (_, x) => ret (VBool (negb (String.eqb x "")))
       | None => tyerr "\1 must be str"
       end
+  | B_Str_uc | B_Str_lc =>
+      let nm := match b with B_Str_uc => "uc" | _ => "lc" end in
+      self <- need (arg0 args) ("Str#" ++ nm ++ " requires at least 1 arg") ;;
+      st <- get_st ;;
+      match as_str W st self with
+      | Some (_, x) =>
+          match map_case (match b with B_Str_uc => true | _ => false end) x with
+          | Some y => ret (VStr (match proto_of W st self with Some p => p | None => wkv W "Str" end) y)
+          | None => unsup "case mapping of non-ASCII text"
+          end
+      | None => tyerr "\1 must be str"
+      end
+  | B_Str_symp =>
+      self <- need (arg0 args) "Str#sym? requires at least 1 arg" ;;
+      st <- get_st ;;
+      match as_str W st self with
+      | Some (_, x) => ret (VBool (is_sym x))
+      | None => s <- insp self ;; tyerr (s ++ " cannot be treated as str")
+      end
   | B_Str_len =>
       self <- need (arg0 args) "Str#len requires at least 1 arg" ;;
       st <- get_st ;;
@@ -1327,7 +1346,13 @@ Definition call_builtin (env : nat) (b : bfn) (args : list val) (kwargs : kwargs
       st <- get_st ;;
       match as_int W st self with
       | Some (p, z) => ret (VInt p z)
-      | None => unsup "Num#floor of non-int"
+      | None => match as_float W st self with
+                | Some fb => match f_floor_int fb with
+                             | Some z => ret (vInt z)
+                             | None => unsup "Num#floor of a float beyond int64"
+                             end
+                | None => s <- insp self ;; tyerr (s ++ " cannot be treated as num")
+                end
       end
   | B_Func_B | B_Iter_B => ret (VBool true)
   | B_Iter_eq =>
